@@ -210,4 +210,26 @@ PROPS = {
                         "exc.throw_from_library", "exc.uncaught_programs", "exc.thread_programs"],
         "assumptions": ["return/goto out of a try block and signals are outside the workload", "the model does not look at messages"],
     },
+    "C20": {
+        "level": "fault_enumeration",
+        "rule": "one evaluation = one seeded plan over 3 File objects and 4 in-memory files behind --wrap=fopen,fclose (+ guards on fread/fwrite/"
+                "fseek/ftell/fflush/feof/vfprintf/vfscanf): byte strings with zero bytes and chunk lengths 0..3*BUFSIZ, swrite/sread, print_to/"
+                "scan_from, sseek with the three origins, stell, seof, sflush, sopen on open Files (reopen), File(name, mode) construction, with "
+                "blocks, del, and every operation also on Files that are not open. Fault-free stage (short reads only, which are legal): bytes "
+                "read == bytes written, stell == harness byte count, seof as the model, every successful open closed exactly once, IOError on "
+                "closed Files without stdio ever seeing a NULL or closed stream. Fault stage (run separately): at the k-th cookie callback of an "
+                "operation a read error, write error (EIO/ENOSPC), failing seek, failing fopen or failing fclose is injected; the operation may "
+                "raise IOError only, a stream is never closed twice nor used after its fclose, and a File whose fclose failed counts as closed. "
+                "Non-trivial = >= 1 seek, >= 1 reopen and >= 1 operation after close in the run; distinct = distinct trace hashes.",
+        "stages": lambda tier: [
+            {"scen": "files", "env": {"faults": 0}, "runs": 5000 if tier == "quick" else 800_000, "configs": ["plain"]},
+            {"scen": "files", "env": {"faults": 1}, "runs": 5000 if tier == "quick" else 800_000, "configs": ["plain"], "first": 5_000_000},
+            {"scen": "files", "env": {"faults": 0}, "runs": 800 if tier == "quick" else 100_000, "configs": ["asan"], "first": 10_000_000},
+            {"scen": "files", "env": {"faults": 1}, "runs": 800 if tier == "quick" else 100_000, "configs": ["asan"], "first": 15_000_000},
+        ],
+        "rare_probes": ["file.reopen", "file.op_after_close", "file.with", "file.del", "file.scan", "file.read_to_eof", "file.seek_origin0",
+                        "file.seek_origin1", "file.seek_origin2", "io.fault_fired", "io.fault_raised_ioerror", "io.close_fault", "io.short_read"],
+        "assumptions": ["glibc stdio over fopencookie is the trusted C library view", "a legal short write that stdio retries cannot be produced through fopencookie and is not claimed",
+                        "after an injected fault the content of that file and the position of that stream are no longer compared"],
+    },
 }
